@@ -566,6 +566,12 @@ acquire_stop(struct AcquireRuntime* self_)
         // already been released, flush it. This takes at most 2 iterations.
         if (video->monitor.reader.id) {
             size_t nbytes;
+            // The client may still hold a mapped region. Release it first:
+            // mapping a reader that is still mapped is refused and leaves
+            // the reader in an error state that fails every later
+            // acquire_map_read().
+            channel_read_unmap(
+              &video->sink.in, &video->monitor.reader, (size_t)-1);
             do {
                 struct slice slice =
                   channel_read_map(&video->sink.in, &video->monitor.reader);
